@@ -44,6 +44,7 @@ type Contract struct {
 	Logicals  []Logical
 	Requires  []*Clause
 	Ensures   []*Clause
+	Defines   []*Clause // ghost assignments at return: constrain the fields of the entries this call appends
 	Invs      []*Clause
 	Mode      string // "", "bv", "int"
 	Inline    bool
@@ -152,7 +153,7 @@ func (cs *ContractSet) parseContractText(file string, lines []string, lineNos []
 			cs.immutables = append(cs.immutables, im)
 		case "constglobal":
 			cs.consts[strings.TrimSpace(rest)] = true
-		case "mode", "logical", "requires", "ensures", "loop", "inline", "noinline", "trusted", "pure", "modifies", "noreturn", "assume", "call", "mayblock", "nonblocking", "unchecked", "appends", "lemmas", "freshwrites", "deadreturns":
+		case "mode", "logical", "requires", "ensures", "defines", "loop", "inline", "noinline", "trusted", "pure", "modifies", "noreturn", "assume", "call", "mayblock", "nonblocking", "unchecked", "appends", "lemmas", "freshwrites", "deadreturns":
 			if cur == nil {
 				cs.errs = append(cs.errs, src+": clause outside func block")
 				continue
@@ -221,13 +222,16 @@ func (cs *ContractSet) parseContractText(file string, lines []string, lineNos []
 						cur.Calls[ck][strings.TrimSpace(as[0])] = strings.TrimSpace(as[1])
 					}
 				}
-			case "requires", "ensures", "assume":
+			case "requires", "ensures", "assume", "defines":
 				c := &Clause{Kind: word, Src: src}
 				c.Label, c.Text = splitLabel(rest)
 				if word == "requires" {
 					cur.Requires = append(cur.Requires, c)
 				} else if word == "ensures" {
 					cur.Ensures = append(cur.Ensures, c)
+				} else if word == "defines" {
+					c.Kind = "ensures"
+					cur.Defines = append(cur.Defines, c)
 				} else {
 					c.Kind = "requires"
 					c.Label = "ASSUME." + c.Label
@@ -619,7 +623,7 @@ func sortedContractKeys(m map[string]*Contract) []string {
 }
 
 func (c *Contract) brokenClause() *Clause {
-	for _, l := range [][]*Clause{c.Requires, c.Ensures, c.Invs} {
+	for _, l := range [][]*Clause{c.Requires, c.Ensures, c.Invs, c.Defines} {
 		for _, cl := range l {
 			if cl.Broken != "" {
 				return cl
